@@ -690,9 +690,24 @@ def rule_controls(ctx):
 
 THOROUGH_FS = []
 
+def rule_display_guard(ctx):
+    """The Display type check is a documented panic only for a *user-supplied* type.  With the built-in type parameters it
+    must be unreachable: every built-in shape's finish leaves only valid types behind (C13's sibling obligations, the
+    type-name table of C15 for PackageType) and build() is the only constructor (C04 CONSTRUCT) -- so the guard in fmt
+    re-tests what finish established with the same predicate."""
+    from . import C04
+    C04.rule_typevalid(ctx, rule="DISPLAY-GUARD", alphabet=False)
+    facts = ctx.facts()
+    fk = models.display_fn(facts)
+    fb = facts.body(fk)
+    guards = [bb for bb, t in fb.calls() if callee_name(t["callee"]) == "is_valid_package_type"]
+    ctx.ob("DISPLAY-GUARD", "Display tests the type with the predicate the built-in shapes validate with", len(guards) == 1, fn=fk, site=fb.site(guards[0]) if guards else "", detail="%d call(s) of is_valid_package_type in fmt" % len(guards))
+
+
 RULES = [
     ("CONTROL", rule_controls, 0),
     ("PANIC", rule_panic, 30),
+    ("DISPLAY-GUARD", rule_display_guard, 4),
     ("LOOP", rule_loop, 1),
     ("NOREC", rule_norec, 1),
     ("CLIPPY-XREF", rule_clippy, 0),
